@@ -320,7 +320,7 @@ class Interp:
             return c
         if isinstance(ty, FloatTy):
             if isinstance(c, float): return c
-            if isinstance(c, Sym): raise Unsupported('symbolic float')
+            if isinstance(c, Sym): return c          # raw bits of a double that is only moved around (any arithmetic on it is refused / opaque)
             return struct.unpack('<d', struct.pack('<Q', c))[0] if ty.k == 'double' else struct.unpack('<f', struct.pack('<I', c))[0]
         raise Unsupported('load ' + ty.key())
 
@@ -775,7 +775,7 @@ class Interp:
                     if isinstance(I.ty, FloatTy):
                         a, b = self.val(I.a, fr), self.val(I.b, fr)
                         self.path_ops.add(op)
-                        if isinstance(a, OpaqueF) or isinstance(b, OpaqueF):
+                        if isinstance(a, (OpaqueF, Sym)) or isinstance(b, (OpaqueF, Sym)):
                             if not self.opaque_fp: raise Unsupported('symbolic float op')
                             fr[I.dest] = OpaqueF(); continue
                         fr[I.dest] = {'fadd': lambda: a + b, 'fsub': lambda: a - b, 'fmul': lambda: a * b, 'fdiv': lambda: a / b}[op]()
@@ -784,11 +784,38 @@ class Interp:
                 elif op == 'icmp':
                     n = 64 if isinstance(I.oty, PtrTy) else I.oty.n
                     fr[I.dest] = self.icmp(I.pred, n, self.val(I.a, fr), self.val(I.b, fr))
+                elif op == 'fcmp':
+                    a, b = self.val(I.a, fr), self.val(I.b, fr)
+                    if isinstance(a, (OpaqueF, Sym)) or isinstance(b, (OpaqueF, Sym)):
+                        if not self.opaque_fp: raise Unsupported('symbolic float compare')
+                        fr[I.dest] = self.fresh('fcmp', 1)           # outcome of a comparison of opaque values: both ways explored
+                    else:
+                        import math
+                        un = math.isnan(a) or math.isnan(b); p = I.pred
+                        base = {'eq': a == b, 'gt': a > b, 'ge': a >= b, 'lt': a < b, 'le': a <= b, 'ne': a != b}
+                        if p == 'true': r = True
+                        elif p == 'false': r = False
+                        elif p == 'ord': r = not un
+                        elif p == 'uno': r = un
+                        elif p[0] == 'o': r = (not un) and base[p[1:]]
+                        else: r = un or base[p[1:]]
+                        fr[I.dest] = int(r)
+                elif op == 'fneg':
+                    a = self.val(I.a, fr)
+                    if isinstance(a, (OpaqueF, Sym)):
+                        if not self.opaque_fp: raise Unsupported('symbolic fneg')
+                        fr[I.dest] = OpaqueF()
+                    else: fr[I.dest] = -a
                 elif op in CAST_OPS:
                     a = self.val(I.a, fr); st = I.a.ty
                     if op in ('bitcast', 'addrspacecast', 'ptrtoint', 'inttoptr'):
                         if op == 'ptrtoint' and I.ty.n < 64: a = self.trunc(a, 64, I.ty.n)
-                        if op == 'bitcast' and isinstance(st, FloatTy) != isinstance(I.ty, FloatTy): raise Unsupported('float bitcast')
+                        if op == 'bitcast' and isinstance(st, FloatTy) != isinstance(I.ty, FloatTy):
+                            if isinstance(a, Sym): fr[I.dest] = a; continue            # bits stay bits
+                            if isinstance(a, OpaqueF): raise Unsupported('bitcast of opaque float')
+                            if isinstance(I.ty, FloatTy): a = struct.unpack('<d', struct.pack('<Q', a))[0] if I.ty.k == 'double' else struct.unpack('<f', struct.pack('<I', a))[0]
+                            else: a = struct.unpack('<Q', struct.pack('<d', a))[0] if st.k == 'double' else struct.unpack('<I', struct.pack('<f', a))[0]
+                            fr[I.dest] = a; continue
                         fr[I.dest] = a
                     elif op == 'trunc': fr[I.dest] = self.trunc(a, st.n, I.ty.n)
                     elif op == 'zext':
